@@ -24,6 +24,25 @@ impl<T> Clone for ServerHandlerMap<T> {
     #[verifier::external_body]
     fn clone(&self) -> (r: Self) ensures r == *self { unimplemented!() }
 }
+// `ServerHandlerType<T> = Arc<Mutex<Box<T>>>`: the only way to the handler is through the lock; the reference obtained from
+// `lock().unwrap()` IS the guard (it lives exactly as long as the lock is held)
+pub struct ServerHandlerType<T> { pub p: core::marker::PhantomData<T> }
+pub struct LockResult<'a, T> { pub g: &'a mut T }
+impl<T> ServerHandlerMap<T> {
+    pub uninterp spec fn has(&self, id: crate::rodbus::UnitId) -> bool;
+    #[verifier::external_body]
+    pub fn get(&mut self, id: crate::rodbus::UnitId) -> (r: Option<&mut ServerHandlerType<T>>)
+        ensures r is Some <==> old(self).has(id), { unimplemented!() }
+}
+impl<T> ServerHandlerType<T> {
+    #[verifier::external_body]
+    pub fn lock(&self) -> (r: LockResult<'_, T>) { unimplemented!() }
+}
+impl<'a, T> LockResult<'a, T> {
+    #[verifier::external_body]
+    pub fn unwrap(self) -> (r: &'a mut T) { unimplemented!() }
+}
+//@trusted ServerHandlerMap::get / Mutex::lock().unwrap() (FFI unit): opaque; the handler is reachable only through the reference that stands for the held lock
 pub struct ServerHandle { pub x: u8 }
 impl ServerHandle {
     // what the accept-loop task controlled by this handle was configured with. The spawn_* functions below promise these values;
